@@ -975,7 +975,10 @@ class Rechunk(ArrayExpr):
         else:
             return None
 
-        rechunked_input = transpose.array.rechunk(new_chunks)
+        # the planner arguments the user gave travel with the rechunk
+        rechunked_input = transpose.array.rechunk(
+            new_chunks, threshold=self.threshold, block_size_limit=self.block_size_limit, method=self.method
+        )
         return Transpose(rechunked_input, axes)
 
     def _pushdown_through_elemwise(self):
@@ -1020,7 +1023,10 @@ class Rechunk(ArrayExpr):
                     # Index not in output (shouldn't happen for elemwise)
                     arg_chunks.append(-1)  # auto
 
-            return arg.rechunk(tuple(arg_chunks))
+            # the planner arguments the user gave travel with the rechunk
+            return arg.rechunk(
+                tuple(arg_chunks), threshold=self.threshold, block_size_limit=self.block_size_limit, method=self.method
+            )
 
         new_args = [rechunk_array_arg(arg) for arg in elemwise.elemwise_args]
 
@@ -1122,7 +1128,12 @@ class Rechunk(ArrayExpr):
             else:
                 return None
 
-        rechunked = [new_collection(arr).rechunk(spec).expr for arr, spec in zip(arrays, specs)]
+        rechunked = [
+            new_collection(arr)
+            .rechunk(spec, threshold=self.threshold, block_size_limit=self.block_size_limit, method=self.method)
+            .expr
+            for arr, spec in zip(arrays, specs)
+        ]
         new_concat = type(concat)(rechunked[0], axis, concat._meta, *rechunked[1:])
         if new_concat.chunks == target:
             return new_concat
